@@ -48,6 +48,9 @@ pub trait DynIt {
 /// does not compile unless the struct implements all four traits.
 pub struct It<I, F>(pub I, pub F);
 
+/// Adapter for iterators whose items are ordered (`names()`): additionally supports `min` / `max`.
+pub struct ItOrd<I, F>(pub I, pub F);
+
 fn o<T, F: Fn(T) -> Obs>(f: &F, x: Option<T>) -> Obs {
     match x {
         None => Obs::None,
@@ -110,6 +113,45 @@ where
             "take" => Obs::Seq(it.take(n).map(|x| f(x)).collect()),
             "rev_skip" => Obs::Seq(it.rev().skip(n).map(|x| f(x)).collect()),
             _ => panic!("rt: unknown consuming op {op}"),
+        }
+    }
+}
+
+impl<T, I, F> DynIt for ItOrd<I, F>
+where
+    I: Iterator<Item = T> + DoubleEndedIterator + ExactSizeIterator + FusedIterator,
+    F: Fn(T) -> Obs,
+    T: Ord,
+{
+    fn next(&mut self) -> Obs {
+        let x = self.0.next();
+        o(&self.1, x)
+    }
+    fn next_back(&mut self) -> Obs {
+        let x = self.0.next_back();
+        o(&self.1, x)
+    }
+    fn nth(&mut self, n: usize) -> Obs {
+        let x = self.0.nth(n);
+        o(&self.1, x)
+    }
+    fn nth_back(&mut self, n: usize) -> Obs {
+        let x = self.0.nth_back(n);
+        o(&self.1, x)
+    }
+    fn len(&self) -> Obs {
+        Obs::Len(ExactSizeIterator::len(&self.0))
+    }
+    fn size_hint(&self) -> Obs {
+        let (a, b) = self.0.size_hint();
+        Obs::Hint(a, b)
+    }
+    fn end(self: Box<Self>, op: &str, n: usize) -> Obs {
+        let ItOrd(it, f) = *self;
+        match op {
+            "min" => o(&f, it.min()),
+            "max" => o(&f, it.max()),
+            _ => Box::new(It(it, f)).end(op, n),
         }
     }
 }
